@@ -352,7 +352,8 @@ func init() {
 		for from := 0; from < nb; from += 3 {
 			items = append(items, HostileItem{State: "mid", Kind: "byz", From: from, To: from + 3})
 		}
-		if th {
+		{
+			// pairs of substitutions (among every 5th one), in both tiers: they take ten seconds
 			for _, k := range []string{"req:eager", "req:join", "req:sync", "resp:sync", "resp:ff"} {
 				n := (probeCount("mid", k) + 4) / 5
 				for from := 0; from < n; from += 2 {
